@@ -29,6 +29,7 @@ type World struct {
 	specFuncPkg map[string]*types.Package
 	lemmas      []*Lemma
 	axioms      []axiomIn
+	specImports map[string]map[string]string // contract package path -> alias -> import path
 	usedLib     map[string]bool
 	refuted     map[string]bool
 	lemmaPkg    *types.Package
@@ -230,6 +231,12 @@ func loadWorld(prop string, extraPkgs []string) (*World, error) {
 		for _, ax := range sf.Axioms {
 			w.axioms = append(w.axioms, axiomIn{ax, pp})
 		}
+		if len(sf.Imports) > 0 {
+			if w.specImports == nil {
+				w.specImports = map[string]map[string]string{}
+			}
+			w.specImports[pp] = sf.Imports
+		}
 	}
 	return w, nil
 }
@@ -293,11 +300,35 @@ func (w *World) lookupType(name string, ctx *types.Package) types.Type {
 	var obj types.Object
 	if i := strings.LastIndex(name, "."); i >= 0 {
 		pn, tn := name[:i], name[i+1:]
-		for path, p := range w.typesPkgs {
-			if path == pn || p.Name() == pn {
-				if o := p.Scope().Lookup(tn); o != nil {
-					obj = o
-					break
+		if ctx != nil {
+			if full, ok := w.specImports[ctx.Path()][pn]; ok {
+				pn = full
+			}
+		}
+		// the contract's own package and its direct imports take precedence (two packages may share a name)
+		if ctx != nil {
+			for _, p := range append([]*types.Package{ctx}, ctx.Imports()...) {
+				if p.Path() == pn || p.Name() == pn {
+					if o := p.Scope().Lookup(tn); o != nil {
+						obj = o
+						break
+					}
+				}
+			}
+		}
+		if obj == nil {
+			paths := make([]string, 0, len(w.typesPkgs))
+			for path := range w.typesPkgs {
+				paths = append(paths, path)
+			}
+			sort.Strings(paths)
+			for _, path := range paths {
+				p := w.typesPkgs[path]
+				if path == pn || p.Name() == pn {
+					if o := p.Scope().Lookup(tn); o != nil {
+						obj = o
+						break
+					}
 				}
 			}
 		}
